@@ -1,0 +1,9 @@
+//go:build verif
+// +build verif
+
+package onet
+
+// VerifC02Overlay returns the overlay of a server, whatever constructor made
+// it (the C02 harness drives an overlay on top of a TLS router end to end;
+// LocalTest only builds plain-TCP and in-memory servers).
+func (c *Server) VerifC02Overlay() *Overlay { return c.overlay }
